@@ -2165,13 +2165,18 @@ class Process:
             return cext.proc_cpu_affinity_get(self.pid)
 
         def _get_eligible_cpus(
-            self, _re=re.compile(br"Cpus_allowed_list:\t(\d+)-(\d+)")
+            self, _re=re.compile(br"(?m)^Cpus_allowed_list:\t([\d,-]+)$")
         ):
             # See: https://github.com/giampaolo/psutil/issues/956
             data = self._read_status_file()
-            match = _re.findall(data)
-            if match:
-                return list(range(int(match[0][0]), int(match[0][1]) + 1))
+            match = _re.search(data)
+            if match and b"-" in match.group(1):
+                # e.g. "0-3,8-11" or "0,2-3": every item of the list counts
+                cpus = []
+                for item in match.group(1).split(b","):
+                    first, _, last = item.partition(b"-")
+                    cpus.extend(range(int(first), int(last or first) + 1))
+                return cpus
             else:
                 return list(range(len(per_cpu_times())))
 
@@ -2196,6 +2201,14 @@ class Process:
                                 f" between {eligible_cpus}"
                             )
                             raise ValueError(msg) from err
+                    if not isinstance(err, ValueError):
+                        # EINVAL: the kernel found none of the requested
+                        # CPUs eligible for this process
+                        msg = (
+                            f"none of the CPUs {cpus!r} is eligible; choose"
+                            f" between {eligible_cpus!r}"
+                        )
+                        raise ValueError(msg) from err
                 raise
 
     # only starting from kernel 2.6.13
